@@ -89,9 +89,6 @@ Definition set_tm (w : world) (i : nat) (t : timer) :=
 Definition set_delegate (w : world) (i : nat) (d : option nat) :=
   let t := w_tm w i in
   set_tm w i (mk_timer (t_interval t) (t_start t) d (t_n t) (t_fn0 t)).
-Definition set_n (w : world) (i : nat) (n : Z) :=
-  let t := w_tm w i in
-  set_tm w i (mk_timer (t_interval t) (t_start t) (t_delegate t) n (t_fn0 t)).
 (* TimerHandle.cancel() *)
 Definition cancel_handle (w : world) (id : nat) :=
   mk_world (w_now w) (w_next w) (w_sched w) (w_ready w) (upd (w_canc w) id true) (w_nt w) (w_tm w) (w_scr w) (w_bind w) (w_nver w).
@@ -150,15 +147,16 @@ Definition rearm (fl : flags) (cfg : config) (i : nat) (w : world) : world :=
   let iv := t_interval t in
   let start := t_start t in
   if iv =? 0 then
-    let '(w1, id) := call_soon (TRun i) w in set_delegate w1 i (Some id)
+    let '(w1, id) := call_soon (TRun i) w in
+    set_tm w1 i (mk_timer iv start (Some id) (t_n t) (t_fn0 t))
   else if f_mono fl then
     let n' := Z.max (t_n t + 1) ((w_now w - start) / iv + 1) in
-    let '(w1, id) := call_at cfg (start + n' * iv) (TRun i) (set_n w i n') in
-    set_delegate w1 i (Some id)
+    let '(w1, id) := call_at cfg (start + n' * iv) (TRun i) w in
+    set_tm w1 i (mk_timer iv start (Some id) n' (t_fn0 t))
   else
     (* call_later(delay) = call_at(time() + delay) *)
     let '(w1, id) := call_at cfg (w_now w + (iv - ((w_now w - start) mod iv))) (TRun i) w in
-    set_delegate w1 i (Some id).
+    set_tm w1 i (mk_timer iv start (Some id) (t_n t) (t_fn0 t)).
 
 (* the callback body (harness script) : clock advance + action *)
 Definition do_action (st : step) (w : world) : world * list event * bool :=
@@ -227,17 +225,18 @@ Fixpoint span_due (endt : Z) (l : list handle) : list handle * list handle :=
 
 (* _run_once; `lat` = how far from the earliest deadline the select() returns
    (negative: early).  None = nothing scheduled and nothing ready. *)
+Definition dispatch_due (fl : flags) (cfg : config) (w1 : world) : world * list event :=
+  let '(due, rest) := span_due (w_now w1 + c_res cfg) (w_sched w1) in
+  let w2 := set_ready (set_sched w1 rest) (w_ready w1 ++ due) in
+  run_ready fl cfg (length (w_ready w2)) w2.
+
 Definition loop_once (fl : flags) (cfg : config) (lat : Z) (w : world) : option (world * list event) :=
   let sched := drop_cancelled (w_canc w) (w_sched w) in
   let w0 := set_sched w sched in
-  let go (w1 : world) :=
-    let '(due, rest) := span_due (w_now w1 + c_res cfg) (w_sched w1) in
-    let w2 := set_ready (set_sched w1 rest) (w_ready w1 ++ due) in
-    run_ready fl cfg (length (w_ready w2)) w2 in
   match w_ready w0, sched with
   | [], [] => None
-  | [], h :: _ => Some (go (set_now w0 (Z.max (w_now w0) (hwhen h + lat))))
-  | _ :: _, _ => Some (go w0)
+  | [], h :: _ => Some (dispatch_due fl cfg (set_now w0 (Z.max (w_now w0) (hwhen h + lat))))
+  | _ :: _, _ => Some (dispatch_due fl cfg w0)
   end.
 
 (* run the loop until idle; a latency is consumed by every iteration that has to wait *)
